@@ -1010,18 +1010,27 @@ var g = &grammar{
 			expr: &actionExpr{
 				pos: position{line: 292, col: 18, offset: 9391},
 				run: (*parser).callonFieldModifier1,
-				expr: &choiceExpr{
-					pos: position{line: 292, col: 19, offset: 9392},
-					alternatives: []interface{}{
-						&litMatcher{
-							pos:        position{line: 292, col: 19, offset: 9392},
-							val:        "required",
-							ignoreCase: false,
+				expr: &seqExpr{
+					pos: position{line: 292, col: 18, offset: 9391},
+					exprs: []interface{}{
+						&choiceExpr{
+							pos: position{line: 292, col: 19, offset: 9392},
+							alternatives: []interface{}{
+								&litMatcher{
+									pos:        position{line: 292, col: 19, offset: 9392},
+									val:        "required",
+									ignoreCase: false,
+								},
+								&litMatcher{
+									pos:        position{line: 292, col: 32, offset: 9405},
+									val:        "optional",
+									ignoreCase: false,
+								},
+							},
 						},
-						&litMatcher{
-							pos:        position{line: 292, col: 32, offset: 9405},
-							val:        "optional",
-							ignoreCase: false,
+						&ruleRefExpr{
+							pos:  position{line: 292, col: 44, offset: 9417},
+							name: "KeywordEnd",
 						},
 					},
 				},
@@ -1211,6 +1220,10 @@ var g = &grammar{
 										},
 										&ruleRefExpr{
 											pos:  position{line: 321, col: 53, offset: 10300},
+											name: "KeywordEnd",
+										},
+										&ruleRefExpr{
+											pos:  position{line: 321, col: 53, offset: 10300},
 											name: "__",
 										},
 									},
@@ -1316,10 +1329,19 @@ var g = &grammar{
 					expr: &choiceExpr{
 						pos: position{line: 349, col: 22, offset: 11099},
 						alternatives: []interface{}{
-							&litMatcher{
-								pos:        position{line: 349, col: 22, offset: 11099},
-								val:        "void",
-								ignoreCase: false,
+							&seqExpr{
+								pos: position{line: 349, col: 22, offset: 11099},
+								exprs: []interface{}{
+									&litMatcher{
+										pos:        position{line: 349, col: 22, offset: 11099},
+										val:        "void",
+										ignoreCase: false,
+									},
+									&ruleRefExpr{
+										pos:  position{line: 349, col: 29, offset: 11106},
+										name: "KeywordEnd",
+									},
+								},
 							},
 							&ruleRefExpr{
 								pos:  position{line: 349, col: 31, offset: 11108},
@@ -1445,48 +1467,57 @@ var g = &grammar{
 			expr: &actionExpr{
 				pos: position{line: 374, col: 17, offset: 11682},
 				run: (*parser).callonBaseTypeName1,
-				expr: &choiceExpr{
-					pos: position{line: 374, col: 18, offset: 11683},
-					alternatives: []interface{}{
-						&litMatcher{
-							pos:        position{line: 374, col: 18, offset: 11683},
-							val:        "bool",
-							ignoreCase: false,
+				expr: &seqExpr{
+					pos: position{line: 374, col: 17, offset: 11682},
+					exprs: []interface{}{
+						&choiceExpr{
+							pos: position{line: 374, col: 18, offset: 11683},
+							alternatives: []interface{}{
+								&litMatcher{
+									pos:        position{line: 374, col: 18, offset: 11683},
+									val:        "bool",
+									ignoreCase: false,
+								},
+								&litMatcher{
+									pos:        position{line: 374, col: 27, offset: 11692},
+									val:        "byte",
+									ignoreCase: false,
+								},
+								&litMatcher{
+									pos:        position{line: 374, col: 36, offset: 11701},
+									val:        "i16",
+									ignoreCase: false,
+								},
+								&litMatcher{
+									pos:        position{line: 374, col: 44, offset: 11709},
+									val:        "i32",
+									ignoreCase: false,
+								},
+								&litMatcher{
+									pos:        position{line: 374, col: 52, offset: 11717},
+									val:        "i64",
+									ignoreCase: false,
+								},
+								&litMatcher{
+									pos:        position{line: 374, col: 60, offset: 11725},
+									val:        "double",
+									ignoreCase: false,
+								},
+								&litMatcher{
+									pos:        position{line: 374, col: 71, offset: 11736},
+									val:        "string",
+									ignoreCase: false,
+								},
+								&litMatcher{
+									pos:        position{line: 374, col: 82, offset: 11747},
+									val:        "binary",
+									ignoreCase: false,
+								},
+							},
 						},
-						&litMatcher{
-							pos:        position{line: 374, col: 27, offset: 11692},
-							val:        "byte",
-							ignoreCase: false,
-						},
-						&litMatcher{
-							pos:        position{line: 374, col: 36, offset: 11701},
-							val:        "i16",
-							ignoreCase: false,
-						},
-						&litMatcher{
-							pos:        position{line: 374, col: 44, offset: 11709},
-							val:        "i32",
-							ignoreCase: false,
-						},
-						&litMatcher{
-							pos:        position{line: 374, col: 52, offset: 11717},
-							val:        "i64",
-							ignoreCase: false,
-						},
-						&litMatcher{
-							pos:        position{line: 374, col: 60, offset: 11725},
-							val:        "double",
-							ignoreCase: false,
-						},
-						&litMatcher{
-							pos:        position{line: 374, col: 71, offset: 11736},
-							val:        "string",
-							ignoreCase: false,
-						},
-						&litMatcher{
-							pos:        position{line: 374, col: 82, offset: 11747},
-							val:        "binary",
-							ignoreCase: false,
+						&ruleRefExpr{
+							pos:  position{line: 374, col: 93, offset: 11758},
+							name: "KeywordEnd",
 						},
 					},
 				},
@@ -1894,18 +1925,27 @@ var g = &grammar{
 			expr: &actionExpr{
 				pos: position{line: 432, col: 17, offset: 13313},
 				run: (*parser).callonBoolConstant1,
-				expr: &choiceExpr{
-					pos: position{line: 432, col: 18, offset: 13314},
-					alternatives: []interface{}{
-						&litMatcher{
-							pos:        position{line: 432, col: 18, offset: 13314},
-							val:        "true",
-							ignoreCase: false,
+				expr: &seqExpr{
+					pos: position{line: 432, col: 17, offset: 13313},
+					exprs: []interface{}{
+						&choiceExpr{
+							pos: position{line: 432, col: 18, offset: 13314},
+							alternatives: []interface{}{
+								&litMatcher{
+									pos:        position{line: 432, col: 18, offset: 13314},
+									val:        "true",
+									ignoreCase: false,
+								},
+								&litMatcher{
+									pos:        position{line: 432, col: 27, offset: 13323},
+									val:        "false",
+									ignoreCase: false,
+								},
+							},
 						},
-						&litMatcher{
-							pos:        position{line: 432, col: 27, offset: 13323},
-							val:        "false",
-							ignoreCase: false,
+						&ruleRefExpr{
+							pos:  position{line: 432, col: 36, offset: 13332},
+							name: "KeywordEnd",
 						},
 					},
 				},
@@ -2610,6 +2650,21 @@ var g = &grammar{
 				chars:      []rune{',', ';'},
 				ignoreCase: false,
 				inverted:   false,
+			},
+		},
+		{
+			name: "KeywordEnd",
+			pos:  position{line: 539, col: 1, offset: 16714},
+			expr: &notExpr{
+				pos: position{line: 539, col: 15, offset: 16728},
+				expr: &charClassMatcher{
+					pos:        position{line: 539, col: 16, offset: 16729},
+					val:        "[A-Za-z0-9._]",
+					chars:      []rune{'.', '_'},
+					ranges:     []rune{'A', 'Z', 'a', 'z', '0', '9'},
+					ignoreCase: false,
+					inverted:   false,
+				},
 			},
 		},
 		{
